@@ -32,9 +32,9 @@ Definition fresh (s : fs) : Prop := ok s = true /\ cnt s = 0.
 (* loopback / private ranges and the black hole, by plain comparisons *)
 Definition private_addr (a b c d : Z) : bool :=
   (a =? 10) || (a =? 127)
-  || ((a =? 172) && (16 <=? b) && (b <=? 31))
+  || ((a =? 172) && ((16 <=? b) && (b <=? 31)))
   || ((a =? 192) && (b =? 168))
-  || ((a =? 0) && (b =? 0) && (c =? 0) && (d =? 0)).
+  || ((a =? 0) && ((b =? 0) && ((c =? 0) && (d =? 0)))).
 
 (* the IPv4 address a destination stands for under resolver [rs]:
    the literal itself, or what the name resolves to *)
